@@ -80,7 +80,7 @@ def h_jws(ctx):
     from joserfc import jws, jwt, rfc7797
     name = ctx.choose("alg", JWS_SUPPORTED + NEAR[:4] + NONSTR)
     form = ctx.choose("allow_list", LFORMS)
-    how = ctx.choose("given_as", ["algorithms", "registry", "plain-jws-registry", "plain-jws-registry-nonstrict"])
+    how = ctx.choose("given_as", ["algorithms", "algorithms-as-tuple", "algorithms-as-frozenset", "registry", "registry+empty-algorithms", "plain-jws-registry", "plain-jws-registry-nonstrict"])
     op = ctx.choose("operation", ["sign", "verify"])
     path = ctx.choose("path", ["compact", "flattened", "general", "7797-compact", "7797-flattened", "jwt"])
     if how.startswith("plain") and not path.startswith("7797"):
@@ -97,8 +97,14 @@ def h_jws(ctx):
     def kw():
         if how == "algorithms":
             return {"algorithms": copy.copy(L)}
+        if how.startswith("algorithms-as-"):
+            # the same names in another container: no less an explicit list
+            return {"algorithms": None if L is None else (tuple(L) if how.endswith("tuple") else frozenset(L))}
         if L is None:
             return {"registry": None}
+        if how == "registry+empty-algorithms":
+            # an empty algorithms= means "no explicit list": the registry the caller passed keeps deciding
+            return {"registry": (rfc7797.JWSRegistry if seven else jws.JWSRegistry)(algorithms=copy.copy(L)), "algorithms": []}
         if how.startswith("plain"):
             # a plain RFC 7515 registry handed to the RFC 7797 entry points: its allow-list must still be the one that counts
             return {"registry": jws.JWSRegistry(algorithms=copy.copy(L), strict_check_header=not how.endswith("nonstrict"))}
@@ -180,7 +186,7 @@ def h_jwe(ctx):
     else:
         name = ctx.choose("name", ["DEF", "def", "GZIP", "", "A128GCM"] + NONSTR)
     form = ctx.choose("allow_list", LFORMS)
-    how = ctx.choose("given_as", ["algorithms", "registry", "algorithms+default-JWERegistry"])
+    how = ctx.choose("given_as", ["algorithms", "algorithms-as-tuple", "registry", "registry+empty-algorithms", "algorithms+default-JWERegistry"])
     op = ctx.choose("operation", ["encrypt", "decrypt"])
     path = ctx.choose("path", ["compact", "flattened", "general", "jwt"])
     if how == "algorithms+default-JWERegistry" and path != "jwt":
@@ -214,6 +220,10 @@ def h_jwe(ctx):
     def kw():
         if how == "algorithms":
             return {"algorithms": copy.copy(L)}
+        if how == "algorithms-as-tuple":
+            return {"algorithms": None if L is None else tuple(L)}
+        if how == "registry+empty-algorithms":
+            return {"registry": jwe.JWERegistry(algorithms=copy.copy(L)) if L is not None else None, "algorithms": []}
         if how == "algorithms+default-JWERegistry":
             # jwt picks the JWE transport by the registry's type; the explicit list must still be the one that counts
             return {"algorithms": copy.copy(L), "registry": jwe.JWERegistry()}
@@ -221,7 +231,7 @@ def h_jwe(ctx):
     hdr = {"alg": alg, "enc": enc}
     if dim == "zip":
         hdr["zip"] = zipv
-    if path == "jwt" and (how == "algorithms" or L is None or "1PU" in real_alg):
+    if path == "jwt" and (how in ("algorithms", "algorithms-as-tuple") or L is None or "1PU" in real_alg):
         return Outcome("n/a", [], nontrivial=None)   # jwt selects the JWE transport by a JWERegistry instance; no sender key
     if op == "encrypt":
         pub = A.jkey(jwk, "dict", private=(jwk["kty"] == "oct"))
